@@ -123,32 +123,46 @@ def k1(shape):
             mine = Peer('192.168.0.9', {'hosts': {'192.168.0.9': {'tcp_port': 50001}}}, 'env')
             mine.last_good = eng.fresh_real('my_last_good')
             pm.myselves = [mine]
-        result = pm.on_peers_subscribe(shape['tor'])
-        hosts = sorted(t[1] for t in result)
-        eng.prove(len(set(hosts)) == len(hosts), 'a peer is advertised twice', {'signature': 'duplicate'})
-        per_bucket = {}
-        onions = 0
-        clear = 0
-        for host in hosts:
-            if mine is not None and host == mine.host:
-                eng.prove(mine.last_good > now - STALE, 'own identity advertised without recent verification',
-                          {'signature': 'stale-self'})
-                clear += 1
-                continue
-            lg, bad, public, bucket = info[host]
-            eng.prove(public, 'a peer that is not publicly routable / not a valid host is advertised',
-                      {'signature': 'non-public', 'host': host})
-            eng.prove(z3_and([lg > now - STALE, z3_not(bad)]), 'a stale or bad peer is advertised',
-                      {'signature': 'stale-or-bad', 'host': host})
-            if bucket == 'onion':
-                onions += 1
-            else:
-                clear += 1
-                per_bucket[bucket] = per_bucket.get(bucket, 0) + 1
-        eng.prove(all(n <= 2 for n in per_bucket.values()), 'more than two peers of one address bucket advertised',
-                  {'signature': 'bucket-overflow', 'buckets': per_bucket})
-        cap = 50 if shape['tor'] else max(10, clear // 4)
-        eng.prove(onions <= cap, 'too many onion peers advertised', {'signature': 'onion-cap', 'n': onions})
+        def ask(phase):
+            result = pm.on_peers_subscribe(shape['tor'])
+            hosts = sorted(t[1] for t in result)
+            eng.prove(len(set(hosts)) == len(hosts), 'a peer is advertised twice', {'signature': 'duplicate'})
+            per_bucket = {}
+            onions = 0
+            clear = 0
+            for host in hosts:
+                if mine is not None and host == mine.host:
+                    eng.prove(mine.last_good > now - STALE, 'own identity advertised without recent verification',
+                              {'signature': 'stale-self'})
+                    clear += 1
+                    continue
+                lg, bad, public, bucket = info[host]
+                eng.prove(public, 'a peer that is not publicly routable / not a valid host is advertised',
+                          {'signature': 'non-public', 'host': host})
+                eng.prove(z3_and([lg > now - STALE, z3_not(bad)]), 'a stale or bad peer is advertised',
+                          {'signature': 'stale-or-bad', 'host': host})
+                if bucket == 'onion':
+                    onions += 1
+                else:
+                    clear += 1
+                    per_bucket[bucket] = per_bucket.get(bucket, 0) + 1
+            eng.prove(all(n <= 2 for n in per_bucket.values()), 'more than two peers of one address bucket advertised',
+                      {'signature': 'bucket-overflow', 'buckets': per_bucket, 'phase': phase})
+            cap = 50 if shape['tor'] else max(10, clear // 4)
+            eng.prove(onions <= cap, 'too many onion peers advertised', {'signature': 'onion-cap', 'n': onions})
+            return hosts, onions
+        hosts, onions = ask('first')
+        if shape.get('rehome'):
+            # a later verification finds host-name peers at another address (what _verify_peer records in
+            # peer.ip_addr); the next request must group them by where they are now
+            for key, (new_ip, new_bucket) in shape['rehome'].items():
+                host = POOL[key][0]
+                for p in pm.peers:
+                    if p.host == host:
+                        p.ip_addr = new_ip
+                lg, bad, public, _b = info[host]
+                info[host] = (lg, bad, public, new_bucket)
+            hosts, onions = ask('after re-verification at a new address')
         symx.observe('n', len(hosts))
         symx.observe('onions', onions)
     finally:
@@ -168,6 +182,10 @@ def k1_shapes(tier):
     for n, g in enumerate(groups):
         out.append({'peers': g, 'onion': (0, 3, 12)[n % 3], 'tor': n % 2 == 0, 'myself': n % 3 == 0})
     out.append({'peers': ['g1', 'c1'], 'onion': 60, 'tor': True})
+    # host-name peers re-verified at a new address between two requests
+    out.append({'peers': ['g1', 'g2', 'n1', 'c1'], 'onion': 0, 'tor': False, 'rehome': {'n1': ('8.8.77.7', 'v4:8.8')}})
+    out.append({'peers': ['n1', 'n2', 'a6', 'b6'], 'onion': 3, 'tor': True,
+                'rehome': {'n1': ('2001:4860:4860:0:5::1', 'v6:2001:4860:4860:00'), 'n2': ('1.1.9.9', 'v4:1.1')}})
     out.append({'peers': ['g1', 'c1'], 'onion': 60, 'tor': False, 'myself': True})
     if tier == 'thorough':
         out += [{'peers': ['g1', 'g2', 'g3', 'n1', 'n2'], 'onion': 2, 'tor': False, 'myself': True},
@@ -192,7 +210,8 @@ KERNELS = [
                   'IPv6 in the same and different /56s, ULA, loopback/link-local IPv6, valid and invalid host names, '
                   'localhost) plus 0..60 onion peers; symbolic: each last_good and the clock (reals), each bad flag, '
                   'the shuffles (every permutation for <= 3 elements, every rotation above), own identity\'s '
-                  'verification time; tor / non-tor requester',
+                  'verification time; tor / non-tor requester; in two scenarios a second request after host-name '
+                  'peers were re-verified at another address',
            outside='peer sets not enumerated; permutations other than rotations of more than 3 elements',
            assumptions=['time.time and random.shuffle replaced by symbolic stubs'],
            witnesses=1),
